@@ -316,9 +316,9 @@ pub fn property() -> Property {
         rule: "Stream 'lists': a pattern of each kind (dewey one/two bounds, glob, '*', alternation, plain) and 2-7 candidate names over bases {a,b,ab,a-b,c} and a letter-free version pool rich in ties (1.0, 1, 1.0.0, 1_0, 1.0pl, 1.0nb0, 01.0, 1.00, 1.0nb1, 1.0rc1, 1.0RC1, 1.0pre1, 2, 0.9, 3, empty), with duplicates and names without '-'. Oracle: for every ordered pair, best_match = None iff neither matches, else the M-dewey maximum of the matching ones with ties to the byte-wise smaller name, and symmetric in its arguments; reducing the list pairwise (None as identity) along 6 generated permutations x 3 association trees (generated, left-deep, right-deep) gives the model's winner. Stream 'arbitrary': arbitrary patterns and names, self-consistency only (result is a matching candidate, the only matching one wins, symmetric, all 6 fold orders of three candidates agree). Non-trivial = at least 2 candidates match and (two of them tie with different text or different bases are involved). Distinct = distinct cases.",
         assumptions: vec!["versions in the model-checked stream are letter-free so that known finding KF-1 cannot interfere"],
         streams: vec![
-            random_stream("lists", "candidate lists, model winner, permutations and association trees", list_strategy, |t| t.pick(40_000, 600_000), check),
-            random_stream("lists-generated", "candidate lists whose versions come from the C01 token generator (KF-1 region tolerated and counted)", generated_list_strategy, |t| t.pick(30_000, 600_000), check),
-            random_stream("arbitrary", "arbitrary patterns and names, self-consistency laws", any_strategy, |t| t.pick(60_000, 1_000_000), check_any),
+            random_stream("lists", "candidate lists, model winner, permutations and association trees", list_strategy, |t| t.pick(40_000, 3_000_000), check),
+            random_stream("lists-generated", "candidate lists whose versions come from the C01 token generator (KF-1 region tolerated and counted)", generated_list_strategy, |t| t.pick(30_000, 3_000_000), check),
+            random_stream("arbitrary", "arbitrary patterns and names, self-consistency laws", any_strategy, |t| t.pick(60_000, 4_000_000), check_any),
         ],
         selfcheck: dewey::selfcheck,
         hang_is_violation: false,
